@@ -82,9 +82,20 @@ def body_decomp(case):
         X, P, Bp = run(case, sv, B)
     trace = hooks.events("decomposition")
     X, P, Bp = np.asarray(X, dtype=float), np.asarray(P, dtype=float), np.asarray(Bp, dtype=float)
+    twin_done = False
+    if (case["seed"] + size) % 4 == 0:
+        # whole-number targets (counts): the int64 array gets the decomposition of the same numbers as floats (same seed)
+        whole = np.ceil(B)              # rounded up: targets stay at or above the baseline (the procedure's domain)
+        with calling("fit_decomposition of whole-number targets (int64 / float64)"):
+            Xi, Pi, _ = run(case, sv, whole.astype(np.int64))
+            Xf, Pf, _ = run(case, sv, whole.copy())
+        Ri, Rf = np.asarray(Pi, dtype=float) @ np.asarray(Xi, dtype=float), np.asarray(Pf, dtype=float) @ np.asarray(Xf, dtype=float)
+        check(Ri.shape == Rf.shape and np.all(np.abs(Ri - Rf) <= 1e-6 * float(np.max(sv.ub - sv.lb)) * max(1.0, case["ubp"])), "decomp:integer-targets-differ",
+              f"targets as an int64 array give opacities x intensities {Ri[:2].tolist()}.., as floats {Rf[:2].tolist()}..")
+        twin_done = True
     check(np.array_equal(B, B0), "decomp:input-modified", "caller's targets modified")
     check(X.shape == (L, sv.n) and P.shape == (size, L) and Bp.shape == B.shape, "decomp:shape", f"X {X.shape} P {P.shape} B_pred {Bp.shape}")
-    labs = sv.labels() + [f"layers{L}", "mask" if case["mask"] is not None else "nomask", f"sub:{case['subsample']}", "equalL1" if case["equal_l1"] else "freeL1", f"entry:{case['entry']}"]
+    labs = sv.labels() + [f"layers{L}", "mask" if case["mask"] is not None else "nomask", f"sub:{case['subsample']}", "equalL1" if case["equal_l1"] else "freeL1", f"entry:{case['entry']}"] + (["whole-number-twin"] if twin_done else [])
     # (a) constraints (SCS accuracy)
     rng = sv.ub - sv.lb
     tolx = 2e-3 * float(np.max(rng))
